@@ -279,8 +279,8 @@ def check_case(case, ctx):
             if t in ("str", "gz", "bz2", "xz", "lzma"):
                 q = numpoly.loadtxt(path, **lkw)
             elif t == "lines":
-                q = numpoly.loadtxt(text.splitlines(True) if "\x85" not in text and "\u2028" not in text
-                                    else text.split("\n"), **lkw)
+                # (split at "\n" only: str.splitlines would also break at U+0085, U+2028, U+2029 ... inside keys)
+                q = numpoly.loadtxt([line + "\n" for line in text.split("\n")], **lkw)
             elif t == "generator":
                 q = numpoly.loadtxt((line for line in text.split("\n")), **lkw)
             elif t == "bytesio":
